@@ -169,6 +169,9 @@ def check(ctx, replay=None):
         roles = [("replay", None)] * len(scenarios)
     else:
         base = gen.generate(ctx.seed + 500, 600 if thorough else 60)
+        # soils hand generators to a second component (the soil pool) and release dispersers that
+        # go through establishment again: a dedicated share of scenarios with soils
+        base += gen.generate(ctx.seed + 900, 200 if thorough else 25, focus_weights=["soil"])
         scenarios, roles = [], []
         for sc in base:
             mode = rng.random()
@@ -273,13 +276,15 @@ def check(ctx, replay=None):
             line = txt.count("\n", 0, m.start()) + 1
             statics.append("%s:%d: %s;" % (os.path.basename(p), line, decl[:80]))
     # a function-local static that is only ever handed out as a reference to const is not state
-    harmless = [x for x in statics if re.search(r"network\.hpp:\d+: static std::set<NodeId> empty;", x)]
+    harmless = [x for x in statics if re.search(r"network\.hpp:\d+: static [^;=(]*\bempty;", x)]
     statics = [x for x in statics if x not in harmless]
     stats["mutable_statics"] = statics
     stats["const_ref_statics"] = harmless
     for x in statics:
         fname = x.split(":")[0]
-        decl = re.sub(r"[^A-Za-z0-9_]+", "_", x.split(": ", 1)[1])[:50]
+        # keyed by file and NAME of the object (the spelling of its type may change)
+        names = re.findall(r"[A-Za-z_]\w*", x.split(": ", 1)[1].split("=")[0].split("(")[0])
+        decl = names[-1] if names else "object"
         ctx.violation("C06.hidden_state.static.%s.%s" % (fname, decl),
                       "non-const static object shared by every instance in the process: %s" % x, None)
     ctx.coverage.update({
